@@ -1,0 +1,21 @@
+//go:build verif
+// +build verif
+
+// Verification hook for property C09 (operator lifecycle). Exports only; compiled only with -tags verif.
+package cluster
+
+import (
+	"github.com/tikv/pd/server/schedule"
+	"github.com/tikv/pd/server/schedule/hbstream"
+)
+
+// VerifC09Coordinator gives a RaftCluster that was initialised with InitCluster but not started (no schedulers,
+// no checkers, no background jobs) a coordinator over the given heartbeat streams, so that a harness can drive
+// HandleRegionHeartbeat - processRegionHeartbeat followed by OperatorController.Dispatch - directly. It returns
+// the coordinator's operator controller.
+func (c *RaftCluster) VerifC09Coordinator(hbStreams *hbstream.HeartbeatStreams) *schedule.OperatorController {
+	c.Lock()
+	defer c.Unlock()
+	c.coordinator = newCoordinator(c.ctx, c, hbStreams)
+	return c.coordinator.opController
+}
